@@ -44,7 +44,10 @@ type ChildCase struct {
 	// PreloadPolicy: the other thread loads this (different) policy instead, without thread-sync: its filter is then not
 	// an ancestor of the judged caller's, and a thread-sync load must be refused.
 	PreloadPolicy *PolicySpec `json:"preload_policy,omitempty"`
-	Unprivileged  bool        `json:"unprivileged,omitempty"`
+	// OuterPolicy: before the judged load, the judged thread itself loads this policy (staged lock-down: the judged load
+	// then runs under a filter).
+	OuterPolicy  *PolicySpec `json:"outer_policy,omitempty"`
+	Unprivileged bool        `json:"unprivileged,omitempty"`
 	// GCSpray: inside the install hook (between building the seccomp argument and the system call) the child
 	// forces garbage collections and then allocates many slices of the program's size filled with another
 	// program: 1 = "ret ALLOW" everywhere, 2 = zero words (refused by the kernel), 3 = collections only.
